@@ -98,6 +98,30 @@ theorem dump_parse_write (s : Sys) (props : List (String × List Nat)) (u : Unit
 example : isOk (writeDump ({ exSys with pos := [⟨0, 0, 0⟩, ⟨1, 1, 1⟩] }) exProps exUnits (.exp 5) 7) = true := by
   decide +kernel
 
+/-- **step_of_whole_number** (fourth round): a whole number is the step it is, whatever carries it — an integer
+    type or a real number (`50.0 / 0.002`, a numpy float, a 0-d array); a system without a time step is at step 0. -/
+theorem step_of_whole_number (i : Int) :
+    (StepVal.int i).step = i ∧ (StepVal.real (i : Rat)).step = i ∧ StepVal.absent.step = 0 ∧ StepVal.none.step = 0 := by
+  refine ⟨rfl, ?_, rfl, rfl⟩
+  simp only [StepVal.step, truncRat]
+  split
+  · exact Rat.floor_intCast i
+  · have h : (-(i : Rat)) = ((-i : Int) : Rat) := by push_cast; rfl
+    rw [h, Rat.floor_intCast]; omega
+
+/-- **dump_timestep_line**: the `ITEM: TIMESTEP` value the independent reader finds in the file written for a system
+    holding `sv` is `sv.step` — with `step_of_whole_number`: 25000 for 25000, 25000.0, `np.float64(25000)`. -/
+theorem dump_timestep_line (s : Sys) (props : List (String × List Nat)) (u : Units) (f : Fmt) (sv : StepVal)
+    (text : List Char) (h : writeDumpStep s props u f sv = .ok text)
+    (hn : NamesOk (props.map fun p => dumpCol p.1 p.2)) (hid : IdNamesOk (props.map fun p => dumpCol p.1 p.2)) :
+    (parseDump text).map (·.timestep) = some sv.step := by
+  obtain ⟨lf, rows, _, _, _, _, _, h5⟩ := dump_parse_write s props u f sv.step text h hn hid
+  rw [h5]; rfl
+
+example : isOk (writeDumpStep ({ exSys with pos := [⟨0, 0, 0⟩, ⟨1, 1, 1⟩] }) exProps exUnits (.exp 5) (.real 25000)) = true ∧
+    (StepVal.real 25000).step = 25000 ∧ (StepVal.real (5 / 2)).step = 2 ∧ (StepVal.real (-5 / 2)).step = -2 := by
+  decide +kernel
+
 /-- **poscar_parse_write**: for every system with valid atom types, the independent POSCAR reader applied to the
     written text returns the comment line, the scale factor, the lattice rows multiplied by it, the symbols line,
     the per-type counts, the coordinate mode and the coordinate rows grouped by type, every number at its printed
@@ -523,6 +547,20 @@ theorem unit_styles_match_lammps :
       ((Gen.AtomStyles.unitStyles.find? (·.1 = e.1)).bind fun g => (g.2.find? (·.1 = kv.1)).map (·.2)) = some kv.2) ∧
     Gen.AtomStyles.forwardsUnits = true := by
   decide +kernel
+
+/-- **derived_units_composed** (fourth round): in every regenerated `style.unit` table the units of angular
+    momentum, angular velocity and volume — the kinds of the `angmom*` / `l*`, `omega*` / `w*`, `volume` columns —
+    are composed of that style's own distance, velocity, mass and time entries as the quantities are defined
+    (distance × velocity × mass, 1 / time, distance³); `lj` has none. -/
+theorem derived_units_composed :
+    ∀ e ∈ Gen.AtomStyles.unitStyles, derivedUnitsComposed e = true := by
+  decide +kernel
+
+/-- the composition matters: with the electron style's entries, distance × velocity × mass and
+    mass × distance² / time are different strings (and different units: velocity ≠ distance / time there). -/
+example : derivedUnitsComposed ("electron", [("mass", some "amu"), ("length", some "aBohr"), ("time", some "fs"),
+      ("velocity", some "2*Ry*aBohr/hbar"), ("ang-mom", some "amu*aBohr^2/fs"), ("ang-vel", some "1/fs"),
+      ("volume", some "aBohr^3")]) = false := by decide +kernel
 
 /-! ## no property twice; the hybrid composition is the real one -/
 
